@@ -16,7 +16,7 @@ RULE = ('cases = groups of related calls: lin (a, b, alpha*a+beta*b; alpha,beta 
         'np.interp), objlin (AccSignal spectra before/after the values are replaced by alpha*a through the public API), objrefine '
         '(AccSignal spectra with min_dt_ratio = r in 2..8 against min_dt_ratio = 1, first period chosen so that the step rule selects factor r, '
         'half of the steps drawn where dt/(dt/r) != r in floating point, half of the records tail-heavy). '
-        'Records: 14 shape classes, n in [4,400] (thorough up to 5000), 1..6 periods per group (4 %: 31..129 at and around powers of two), dt log-uniform/nice, T/dt over [0.2,2e4], '
+        'Records: 14 shape classes (4 %: extreme scales 1e+-165..1e+-220 where squares of samples under/overflow), n in [4,400] (thorough up to 5000), 1..6 periods per group (4 %: 31..129 at and around powers of two), dt log-uniform/nice, T/dt over [0.2,2e4], '
         'xi in {0,.05,.5,.99,.99999,1-1e-7,1-1e-10,U(0,1)}, integer-valued period containers with a leading 0 in the permutation/batching groups, extreme time bases. distinct = digest of the group inputs; non-trivial = base record not identically zero.')
 ASSUMPTIONS = ['relations are judged with rtol 1e-9 (linearity) / 1e-12 (causality, shift, permutation, batching; currently '
                'bit-identical, the count of bit-identical groups is reported) relative to the natural response scale '
@@ -114,7 +114,7 @@ def draw_base(rng, tier, need_zero_start=False):
         n = int(rng.integers(4, 401))
     else:
         n = int(rng.integers(400, 5001))
-    x, cls = gen.record(rng, n, wide=True)
+    x, cls = gen.record(rng, n, wide=True, extreme=True)
     if need_zero_start:
         x = x.copy()
         x[0] = 0.0
